@@ -3,7 +3,6 @@ package main
 import (
 	"bufio"
 	"bytes"
-	"flag"
 	"fmt"
 	"strconv"
 	"strings"
@@ -17,24 +16,8 @@ import (
 
 // ---- group 3 ------------------------------------------------------------------------------------
 
-// Two genuine deviations from the property were found while building this check (see checks/c18.py,
-// "findings"). Until they are listed in known_findings.json (or repaired) they are reported as NOTE lines and
-// counted in the statistics; with -judge-findings they are property-oracle failures with these keys.
-var judgeFindings = flag.Bool("judge-findings", false, "judge split:trimdbcs and split:subjectex as oracle failures")
-
+// counters reported in the statistics (how many cases exercised the two repaired defects' classes)
 var findingCount = map[string]int{}
-
-// finding is what a judge returns for one of the recorded deviations.
-func finding(key, what string) (string, string) {
-	findingCount[key]++
-	if *judgeFindings {
-		return key, what
-	}
-	if findingCount[key] == 1 {
-		run.Note("FINDING " + key + " (not judged without -judge-findings): " + what)
-	}
-	return "", ""
-}
 
 func cstrOf(b []byte) []byte {
 	if i := bytes.IndexByte(b, 0); i >= 0 {
@@ -334,7 +317,6 @@ func init() {
 			return "", ""
 		}
 	}
-	observedCrash["trimdbcs:obs:empty:panic"] = struct{}{}
 	observedCrash["dbcsstatus:obs:empty:panic"] = struct{}{}
 	opsTable["trimdbcs"] = func(ws []string) (string, string, judgeFn) {
 		s, ok := one(ws)
@@ -348,25 +330,36 @@ func init() {
 			return hx.Hex(got) + " " + hx.Hex(buf)
 		})
 		c := cstrOf(s)
-		if len(c) == 0 { // O7: panics on the empty string; recorded, not judged
-			return out, "trimdbcs:obs:empty", nil
-		}
 		cls := "ascii-end"
-		if c[len(c)-1] >= 0x80 {
+		switch {
+		case len(c) == 0:
+			cls = "empty"
+		case danglingLead(c):
+			cls = "dangling-lead-end"
+		case c[len(c)-1] >= 0x80:
 			cls = "trail-end"
-			if danglingLead(c) {
-				cls = "dangling-lead-end"
-			}
 		}
 		return out, "trimdbcs:" + cls, func(out string) (string, string) {
 			if !bytes.HasPrefix(c, got) || len(c)-len(got) > 1 {
 				return "prefix:trimdbcs", fmt.Sprintf("TrimDBCS(%q)=%q is not the C string minus at most one byte", s, got)
 			}
-			if danglingLead(got) && !danglingLead(c) {
-				return finding("split:trimdbcs", fmt.Sprintf("TrimDBCS(%q)=%q cuts a complete double-byte character in half", c, got))
-			}
 			if danglingLead(got) {
+				if !danglingLead(c) {
+					findingCount["split:trimdbcs"]++
+					return "split:trimdbcs", fmt.Sprintf("TrimDBCS(%q)=%q cuts a complete double-byte character in half", c, got)
+				}
 				return "split:trimdbcs-left", fmt.Sprintf("TrimDBCS(%q)=%q still ends in a lead byte", c, got)
+			}
+			if !danglingLead(c) && len(got) != len(c) {
+				return "trim:trimdbcs", fmt.Sprintf("TrimDBCS(%q)=%q removes a byte although the string ends in a whole character", c, got)
+			}
+			// the cut byte is zeroed in the caller's array, nothing else changes
+			wantBuf := cp(s)
+			if len(got) < len(c) {
+				wantBuf[len(got)] = 0
+			}
+			if !bytes.Equal(buf, wantBuf) {
+				return "buffer:trimdbcs", fmt.Sprintf("TrimDBCS(%q) leaves the array %q, want %q", s, buf, wantBuf)
 			}
 			return "", ""
 		}
@@ -415,15 +408,11 @@ func init() {
 			}
 			k := len(c) - len(got)
 			if k > 0 && dbcsRef(c[:k])[k-1] == 1 {
-				return finding("split:subjectex", fmt.Sprintf("SubjectEx(%q) cuts at byte %d, inside a double-byte character: %q", c, k, got))
+				findingCount["split:subjectex"]++
+				return "split:subjectex", fmt.Sprintf("SubjectEx(%q) cuts at byte %d, inside a double-byte character: %q", c, k, got)
 			}
 			if ty != refTy || !bytes.Equal(got, rest) {
-				// disagreement with the C parser (bytes.ToLower reads Big5 as UTF-8): observation O8, the
-				// property's agreement clause does not list the subject parser
-				findingCount["obs:subjectex-legacy-prefix"]++
-				if findingCount["obs:subjectex-legacy-prefix"] == 1 {
-					run.Note(fmt.Sprintf("OBSERVATION O8 (not judged): SubjectEx(%q) = (%d,%q), the C parser gives (%d,%q)", c, ty, got, refTy, rest))
-				}
+				return "parse:subjectex", fmt.Sprintf("SubjectEx(%q) = (%d,%q), the C parser (strncasecmp on the bytes) gives (%d,%q)", c, ty, got, refTy, rest)
 			}
 			return "", ""
 		}
